@@ -307,7 +307,7 @@ func (w *worker) judgeNeg(id string, nc *negCase, fr fragSpec, bs *bufSched, o o
 	}
 	if bytes.Equal(o.out, nc.pay) {
 		if nc.strict {
-			w.violation("direct:neg:"+rdr+":"+nc.region+":accepted-unverified", id, detail("stream with a wrong signature / checksum reported success"))
+			w.violation("direct:neg:"+rdr+":"+nc.region+":accepted-unverified", id, detail("stream with a wrong signature / checksum / chunk header terminator reported success"))
 			return
 		}
 		w.obs["lenient: "+rdr+" accepted a "+nc.kind+" stream ("+nc.region+") with exactly the payload"]++
@@ -756,6 +756,10 @@ func strictMutation(st *bstream, reg *region, i int, v byte) bool {
 	switch reg.name {
 	case "sig", "final-sig", "trsig-value":
 		return hexVal(v) != hexVal(st.enc[i]) // other digit or not a digit at all; a mere case change is not judged strictly
+	case "hdr-crlf", "final-hdr-crlf":
+		// a chunk header ends in CR LF; any other byte in either place is a malformed stream, not another way of
+		// writing the same one
+		return v != st.enc[i]
 	case "tr-value":
 		orig := string(st.enc[reg.start:reg.end])
 		m := []byte(orig)
